@@ -124,6 +124,13 @@ func main() {
 				cfg.ShrinkFor = time.Duration(s) * time.Second
 			}
 			code = sim.RunBatch(w, chk, cfg)
+		case "gen":
+			// yqsim gen <property> <seed> <index>: print the scenario a batch would generate
+			chk := sim.CheckByID(os.Args[2])
+			seed, _ := strconv.ParseUint(os.Args[3], 10, 64)
+			idx, _ := strconv.Atoi(os.Args[4])
+			fmt.Println(string(sim.GenerateOne(w, chk, seed, idx).JSON()))
+			code = 0
 		case "replay":
 			if len(os.Args) < 3 {
 				usage()
